@@ -238,4 +238,33 @@ theorem listed_iff_program (x y : Nat) (ops : List Op) (Z : List Nat) :
     Z ∈ listAll G x y ↔ Z.Sublist (cands G x y) ∧ Admissible G.edges x y Z :=
   listed_iff _ (inv_from_init x y ops).wf x y Z
 
+
+/-! ### Histories: `calculate_adjustment_sets()` called any number of times among the edits -/
+
+/-- whatever was called before on the object (edits of every kind, raising calls, earlier calculations), the
+    attributes right after a `calculate_adjustment_sets()` are those of the graph *as it is at that moment*:
+    `adjustment_sets` is the listing of the current graph (no stale result survives), that graph is the one built by
+    the editing calls alone, and a candidate list is in it iff it is admissible in the current graph;
+    `minimal_adjustment_sets` are its smallest members -/
+theorem calculate_reports_current (x y : Nat) (cs : List Call) :
+    let o := (runObj x y (newObj x y) (cs ++ [.calculate])).1
+    o.dag = (run x y (init x y) (edits cs)).1 ∧
+    o.adj = some (listAll o.dag x y) ∧ o.minAdj = some (minimal (listAll o.dag x y)) ∧
+    (∀ Z, Z ∈ listAll o.dag x y ↔ Z.Sublist (cands o.dag x y) ∧ Admissible o.dag.edges x y Z) ∧
+    (∀ Z, Z ∈ minimal (listAll o.dag x y) ↔
+      Z ∈ listAll o.dag x y ∧ ∀ W ∈ listAll o.dag x y, Z.length ≤ W.length) := by
+  intro o
+  obtain ⟨h1, h2, h3⟩ := runObj_calc_last x y (newObj x y) cs
+  have hd : o.dag = (run x y (init x y) (edits cs)).1 := h1.trans (runObj_dag x y (newObj x y) cs)
+  have ha : o.adj = some (listAll o.dag x y) ∧ o.minAdj = some (minimal (listAll o.dag x y)) := ⟨h2, h3⟩
+  refine ⟨hd, ha.1, ha.2, fun Z => ?_, fun Z => mem_minimal⟩
+  have hwf : o.dag.WF := hd ▸ (inv_from_init x y (edits cs)).wf
+  exact listed_iff o.dag hwf x y Z
+
+/-- the seed-style history: calculate, load another graph with `add_from_networkx`, calculate again -/
+example : (runObj 0 1 (newObj 0 1) [.edit (.arrow 2 0), .edit (.arrow 2 1), .calculate,
+      .edit (.fromGraph [] [(0, 1), (3, 0), (3, 1)]), .edit (.arrow 1 3), .calculate]).2 =
+    [(none, none), (none, none), (none, some ([[2]], [[2]])), (none, none), (some .cyclic, none),
+     (none, some ([[3]], [[3]]))] := by decide
+
 end ZV.P18
